@@ -102,13 +102,16 @@ func (in *Interp) posString() string {
 	return "?"
 }
 
+// RepoRoot is the directory of the tree under test (set by the CLI).
+var RepoRoot = "/repo/"
+
 // forkSite names the innermost repo/harness source line on the call stack.
 func (in *Interp) forkSite() string {
 	f := in.cur
 	for f != nil {
 		if f.curInst != nil && f.curInst.Pos().IsValid() {
 			p := in.prog.Fset.Position(f.curInst.Pos())
-			if strings.HasPrefix(p.Filename, "/repo/") {
+			if strings.HasPrefix(p.Filename, RepoRoot) {
 				return fmt.Sprintf("%s:%d", shortFile(p.Filename), p.Line)
 			}
 		}
@@ -118,6 +121,7 @@ func (in *Interp) forkSite() string {
 }
 
 func shortFile(f string) string {
+	f = strings.TrimPrefix(f, RepoRoot)
 	f = strings.TrimPrefix(f, "/repo/")
 	return f
 }
@@ -1575,6 +1579,7 @@ func (in *Interp) mapFind(m *MapObj, key Value) int {
 }
 
 func (in *Interp) mapUpdate(m *MapObj, key, val Value) {
+	in.onMapAccess(m, true)
 	if i := in.mapFind(m, key); i >= 0 {
 		m.Vals[i] = val
 		return
@@ -1584,6 +1589,7 @@ func (in *Interp) mapUpdate(m *MapObj, key, val Value) {
 }
 
 func (in *Interp) mapDelete(m *MapObj, key Value) {
+	in.onMapAccess(m, true)
 	if i := in.mapFind(m, key); i >= 0 {
 		m.Keys = append(m.Keys[:i:i], m.Keys[i+1:]...)
 		m.Vals = append(m.Vals[:i:i], m.Vals[i+1:]...)
@@ -1591,6 +1597,7 @@ func (in *Interp) mapDelete(m *MapObj, key Value) {
 }
 
 func (in *Interp) mapLen(m *MapObj) BV {
+	in.onMapAccess(m, false)
 	// keys are kept pairwise distinct by mapUpdate (which forks on equality), so len is concrete
 	return concBV(64, uint64(len(m.Keys)))
 }
@@ -1601,6 +1608,7 @@ func (in *Interp) lookup(fr *frame, x *ssa.Lookup) Value {
 		return in.strIndex(s, in.convertBV(in.get(fr, x.Index).(BV), isSigned(x.Index.Type()), 64))
 	}
 	m := v.(*MapObj)
+	in.onMapAccess(m, false)
 	vt := x.X.Type().Underlying().(*types.Map).Elem()
 	var res Value
 	found := false
@@ -1626,6 +1634,7 @@ func (in *Interp) rangeOp(v Value) Value {
 		return &rangeIter{s: x, isStr: true}
 	case *MapObj:
 		it := &rangeIter{m: x}
+		in.onMapAccess(x, false)
 		if x != nil {
 			n := len(x.Keys)
 			order := make([]int, n)
